@@ -143,6 +143,7 @@ type core struct {
 	mu         sync.Mutex
 	done       bool // a context was cancelled or cancelWants was observed
 	closedSeen bool
+	dead       bool // a Publish blocked: the pub/sub loop is stuck, nothing further can be observed
 	wantCalls  int
 }
 
@@ -152,6 +153,10 @@ func (g *core) stop() {
 	}
 	g.cancel()
 	g.sessCancel()
+	if g.dead {
+		g.notif = nil // Shutdown would block on the stuck pub/sub loop
+		return
+	}
 	if !g.done && len(g.keys) > 0 {
 		select {
 		case <-g.cwCh:
@@ -242,6 +247,9 @@ func (g *core) allDelivered() bool {
 }
 
 func execCore(g *core, f []string, o *vh.Out) string {
+	if g.dead && f[0] != "get" {
+		return "dead"
+	}
 	switch f[0] {
 	case "get":
 		g.stop()
@@ -295,7 +303,15 @@ func execCore(g *core, f []string, o *vh.Out) string {
 		} else {
 			o.Kind("unrequested-publish")
 		}
-		g.notif.Publish("", b)
+		pubDone := make(chan struct{})
+		go func() { g.notif.Publish("", b); close(pubDone) }()
+		select {
+		case <-pubDone:
+		case <-time.After(3 * time.Second):
+			o.Fail("publish-blocked", "notif.Publish of block %d did not return within 3s", i)
+			g.dead = true
+			return "dead"
+		}
 		return "ok"
 	case "read":
 		if g.notif == nil {
@@ -464,7 +480,7 @@ func netScenario(seed, nodes, nblocks, latMs int) (fails []string, kinds []strin
 			if q.cancelMs > 0 {
 				timer = time.After(time.Duration(q.cancelMs) * time.Millisecond)
 			}
-			deadline := time.After(15 * time.Second)
+			deadline := time.After(8 * time.Second)
 			cancelled := false
 			n := 0
 			if q.cancelAt == 0 {
@@ -498,7 +514,7 @@ func netScenario(seed, nodes, nblocks, latMs int) (fails []string, kinds []strin
 					timer = nil
 				case <-deadline:
 					if !cancelled {
-						addFail(fmt.Sprintf("net-not-delivered: %d of %d blocks after 15s", len(q.delivered), len(wanted)))
+						addFail(fmt.Sprintf("net-not-delivered: %d of %d blocks after 8s", len(q.delivered), len(wanted)))
 					}
 					cancel()
 					cancelled = true
@@ -511,7 +527,7 @@ func netScenario(seed, nodes, nblocks, latMs int) (fails []string, kinds []strin
 	// every request has ended: the requester's want-list must become empty
 	ok := false
 	var wl []cid.Cid
-	for i := 0; i < 300; i++ {
+	for i := 0; i < 200; i++ {
 		wl = me.Exchange.GetWantlist()
 		if len(wl) == 0 {
 			ok = true
@@ -520,7 +536,7 @@ func netScenario(seed, nodes, nblocks, latMs int) (fails []string, kinds []strin
 		time.Sleep(10 * time.Millisecond)
 	}
 	if !ok {
-		addFail(fmt.Sprintf("net-wantlist-not-cleaned: %d CIDs still wanted 3s after every request ended", len(wl)))
+		addFail(fmt.Sprintf("net-wantlist-not-cleaned: %d CIDs still wanted 2s after every request ended", len(wl)))
 	}
 	for _, q := range reqs {
 		if q.session {
@@ -590,4 +606,4 @@ func exec(c vh.Case, o *vh.Out) {
 	}
 }
 
-func main() { vh.Main(vh.Config{Gen: gen, Exec: exec, CaseTimeout: 120 * time.Second}) }
+func main() { vh.Main(vh.Config{Gen: gen, Exec: exec, CaseTimeout: 45 * time.Second}) }
